@@ -102,6 +102,19 @@ def run_atom(job):
     m = _model(fe)
     x = m.dvar(atom['n'])
     _st(m, x >= atom['lo'], x <= atom['hi'])
+    # "every constraint accepted by st()": the box is a user constraint too.  On every other case a LOOSER bound on the same
+    # entries is declared after the tight one (redundant, must change nothing); the returned point must respect the tight box
+    looser_later = (job.get('ai', 0) + job.get('sk', 0) + (1 if it['pos'] == 'constr' else 0)) % 2 == 1
+    if looser_later:
+        _st(m, x <= np.asarray(atom['hi']) + 3.0)
+        _st(m, x >= np.asarray(atom['lo']) - 3.0)
+
+    def box_sig(a, tol_):
+        lo_, hi_ = np.asarray(atom['lo'], dtype=float), np.asarray(atom['hi'], dtype=float)
+        out_ = float(max(np.max(a - hi_), np.max(lo_ - a)))
+        if out_ > 30 * tol_ * (1 + float(np.max(np.abs(hi_)))):
+            return 'C06:bound-not-enforced:%s:%s' % ('looser-bound-declared-later' if looser_later else 'single-box', fe)
+        return None
     w = np.array([1.0, 0.7])
     expr = atom['mk'](rso, x)
     ew = atom['ew']
@@ -151,6 +164,8 @@ def run_atom(job):
             out['inconclusive'] = True
         if abs(objv - float(w @ a)) > 10 * tol * (1 + abs(objv)):
             out['sig2'] = 'C06:objective-value-differs:affine:%s' % fe
+        if box_sig(a, tol) and 'sig' not in out:
+            out['sig'] = box_sig(a, tol)
         # active? (vacuity of the individual case: the constraint, not the box, stops the objective)
         out['active'] = bool(viol > -1e-3 * (1 + abs(r)))
         return out
@@ -178,6 +193,8 @@ def run_atom(job):
         out['sig'] = 'C06:objective-value-differs:%s:%s' % (tag, fe)
     elif abs(objv - want) > tol * (1 + abs(want)):
         out['inconclusive'] = True
+    if box_sig(a, tol) and 'sig' not in out:
+        out['sig'] = box_sig(a, tol)
     return out
 
 
